@@ -67,8 +67,9 @@ def components(job):
         out["import_error"] = _err(e)
         return out
     try:
-        for m in ALL_PACKAGES:
-            importlib.import_module(m)
+        # the documented restart path imports the driver's module and nothing else: every class a saved
+        # simulation can name must be registered by that alone
+        importlib.import_module("quansino.mc")
     except Exception as e:  # noqa: BLE001
         out["import_ok"] = False
         out["import_error"] = _err(e) | {"phase": "rest"}
